@@ -232,7 +232,7 @@ def derived(tier, rng):
             ("apply_gufunc(sum, (i)->())", lambda x: da.apply_gufunc(lambda t: t.sum(axis=-1), "(i)->()", x.rechunk({1: -1}), output_dtypes=float),
              lambda a: a.sum(axis=-1)),
             ("map_overlap(depth=1, trim=False)", lambda x: x.map_overlap(lambda b: b, depth=1, boundary="reflect", trim=False),
-             None),
+             lambda a, rows=rows, cols=cols: _untrimmed_halo(a, rows, cols)),
         ]:
             add(f"{tag}.{name}", lambda mk2=mk2, f=f, g=g: (f(mk2()), (g(sq) if g is not None else None), {}))
         # a 1-D boolean dask mask on a layout-drifting 2-D input (the mask's nan chunks are a literal of the input's layout)
@@ -312,6 +312,21 @@ def _add_where_out(x):
 def _np_add_where_out(a):
     import numpy as np
     return np.add(a, a, where=(a % 3 == 0), out=np.full(a.shape, -1.0))
+
+
+def _untrimmed_halo(a, rows, cols):
+    """NumPy reference for map_overlap(identity, depth=1, boundary='reflect', trim=False): every block with its halo"""
+    import numpy as np
+    p = np.pad(a, 1, mode="symmetric")
+    out, r0 = [], 0
+    for r in rows:
+        line, c0 = [], 0
+        for c in cols:
+            line.append(p[r0:r0 + r + 2, c0:c0 + c + 2])
+            c0 += c
+        out.append(line)
+        r0 += r
+    return np.block(out)
 
 
 def _halving_blockwise(x):
